@@ -233,7 +233,10 @@ Definition mon_step (D bound : Z) (ms : mstate) (o : op) (b : obs) : N * mstate 
   | OPkt _ bytes now, BPkt pre prek post postk _ =>
     let c3 := if sample_taken pre prek post postk && negb (echo_ok pre bytes now) then 3%N else 0%N in
     (first_code c3 (first_code (lobs_code pre) (lobs_code post)), ms)
-  | OMark _, BMark post => (lobs_code post, ms)
+  | OMark _, BMark post =>
+    (* a soft reset cancels the outstanding probe: "while a probe is outstanding" is judged since the
+       link's last reset, so an echo that straddles a reset is never a sample *)
+    (first_code (if o_waiting post then 3%N else 0%N) (lobs_code post), ms)
   | OEnd, BEnd ds => (fold_right (fun d c => first_code (lobs_code (d_l d)) c) 0%N ds, ms)
   | _, _ => (0%N, ms)
   end.
